@@ -175,6 +175,12 @@ impl World {
     }
 
     fn snapshot(&self) -> String {
+        self.snapshot_f(false)
+    }
+
+    /// `drop_empty_rel`: mid-race form — reverse-index entries that hold nothing are left out (an empty
+    /// entry is created and removed by whoever gets there first; the model does not track their `Arc`s)
+    fn snapshot_f(&self, drop_empty_rel: bool) -> String {
         let snap = pg::verif_snapshot();
         let mut m: Vec<((u64, u64), String)> = snap
             .map
@@ -213,6 +219,7 @@ impl World {
         let mut r: Vec<(u64, String)> = snap
             .relations
             .iter()
+            .filter(|(_, mem, gm, wm)| !drop_empty_rel || !(mem.is_empty() && gm.is_empty() && wm.is_empty()))
             .map(|(id, mem, gm, wm)| {
                 let k = self.k_of(*id);
                 let mut ws: Vec<u64> = wm.iter().map(|(s, _)| scope_back(s)).collect();
@@ -684,6 +691,7 @@ mod thr {
         kill: bool,
         do_exit: bool,
         evlog: EvLog,
+        extra: Option<ActorCell>,
         ctl: Arc<ThreadCtl>,
         tx: mpsc::Sender<BTreeMap<u64, ActorCell>>,
         done_racer: mpsc::Receiver<()>,
@@ -697,6 +705,10 @@ mod thr {
                 if let Ok((a, _)) = Actor::spawn(None, PA::new(evlog.clone()).0, ()).await {
                     cells.insert(k, a.get_cell());
                 }
+            }
+            // the second exiter lives on its own thread (its own runtime): index `n_actors`
+            if let Some(c) = extra {
+                cells.insert(n_actors, c);
             }
             quiesce().await;
             for l in &setup {
@@ -728,6 +740,38 @@ mod thr {
             for c in cells.values() {
                 c.kill();
             }
+            quiesce().await;
+            quiesce().await;
+        });
+    }
+
+    /// Second owner thread: hosts ONE actor on its own runtime and, parked at every point, runs its
+    /// exit (stop or kill + `wait()`), so that two exit sequences interleave region by region.
+    fn owner2_body(evlog: EvLog, ctl: Arc<ThreadCtl>, tx_cell: mpsc::Sender<ActorCell>, go: mpsc::Receiver<bool>, finish: mpsc::Receiver<()>) {
+        let rt = tokio::runtime::Builder::new_current_thread().enable_all().start_paused(true).build().unwrap();
+        rt.block_on(async {
+            let Ok((a, _)) = Actor::spawn(None, PA::new(evlog.clone()).0, ()).await else {
+                return;
+            };
+            quiesce().await;
+            let x = a.get_cell();
+            let _ = tx_cell.send(x.clone());
+            let Ok(kill) = go.recv() else {
+                x.kill();
+                quiesce().await;
+                return;
+            };
+            verif::thread_register(ctl.clone());
+            verif::point("h.go");
+            if kill {
+                x.kill();
+            } else {
+                x.stop(None);
+            }
+            let _ = x.wait(None).await;
+            verif::point("h.waited");
+            verif::thread_unregister();
+            let _ = finish.recv();
             quiesce().await;
             quiesce().await;
         });
@@ -769,6 +813,8 @@ mod thr {
         pub kill: bool,
         /// does the owner thread run the exit of actor 0 at all?
         pub exit: bool,
+        /// a second exiter (actor index `n_actors`) on a second owner thread: exit ‖ exit
+        pub exit2: Option<bool>,
     }
 
     /// the fixed small scenarios of the exhaustive sweep
@@ -795,6 +841,10 @@ mod thr {
             11 => (watch, vec![vec!["join 1 1 1"], vec!["monitor 1 2"]], false, false),
             12 => (watch, vec![vec!["leave 1 0 1"], vec!["demonitorscope 1 2"]], false, false),
             13 => (watch, vec![vec!["join 1 0 2"], vec!["monitorscope 0 1"]], false, false),
+            // `demonitor*` fetches the reverse-index `Arc` before it takes the entry: a first `monitor*` of an actor
+            // that has no reverse-index entry yet, racing with it (the stale reverse-only monitor entry)
+            14 => (vec!["join 1 0 0".to_string()], vec![vec!["monitor 0 1"], vec!["demonitor 0 1"]], false, false),
+            15 => (vec!["join 1 0 0".to_string()], vec![vec!["monitorscope 1 1"], vec!["demonitorscope 1 1", "monitor 0 1"]], false, false),
             _ => return None,
         };
         Some(Spec {
@@ -804,6 +854,7 @@ mod thr {
             progs: progs.iter().map(|p| p.iter().map(|s| s.to_string()).collect()).collect(),
             kill,
             exit,
+            exit2: None,
         })
     }
 
@@ -865,7 +916,39 @@ mod thr {
         let kill = rng.chance(1, 3);
         let sticky = rng.below(4);
         let exit = rng.chance(5, 6);
-        (Spec { tag: seed.to_string(), n_actors, setup, progs, kill, exit }, Sched::Random { rng, sticky })
+        // exit ‖ exit: a second exiter (index `n_actors`, own thread) with its own memberships / monitors,
+        // named by the racers as well (own PRNG stream: the rest of the case is what it was before)
+        let mut rng2 = Rng::new(seed ^ 0x5bd1_e995_9e37_79b9);
+        let exit2 = if rng2.chance(1, 2) { Some(rng2.chance(1, 3)) } else { None };
+        if exit2.is_some() {
+            let e2 = n_actors;
+            for _ in 0..rng2.range(1, 3) {
+                let g = rng2.below(2);
+                let sc = rng2.range(1, 2);
+                setup.push(match rng2.below(6) {
+                    0 | 1 => format!("join {sc} {g} {e2}"),
+                    2 => format!("join {sc} {g} 0,{e2}"),
+                    3 => format!("monitor {g} {e2}"),
+                    4 => format!("monitorscope {} {e2}", rng2.range(0, 2)),
+                    _ => format!("join {sc} {g} 1,{e2}"),
+                });
+            }
+            for _ in 0..rng2.range(0, 2) {
+                let g = rng2.below(2);
+                let sc = rng2.range(1, 2);
+                let op = match rng2.below(6) {
+                    0 | 1 => format!("join {sc} {g} {}", *rng2.pick(&[format!("{e2}"), format!("0,{e2}"), format!("{e2},1")])),
+                    2 => format!("monitor {g} {e2}"),
+                    3 => format!("monitorscope {} {e2}", rng2.range(0, 2)),
+                    4 => format!("leave {sc} {g} {}", *rng2.pick(&[format!("{e2}"), format!("0,{e2}")])),
+                    _ => format!("demonitor {g} {e2}"),
+                };
+                let which = rng2.below(progs.len() as u64) as usize;
+                let at = rng2.below(progs[which].len() as u64 + 1) as usize;
+                progs[which].insert(at, op);
+            }
+        }
+        (Spec { tag: seed.to_string(), n_actors, setup, progs, kill, exit, exit2 }, Sched::Random { rng, sticky })
     }
 
     /// `thrcase <seed>` (random) or `thrcase x:<scenario>:<choices>` (scripted schedule)
@@ -927,22 +1010,41 @@ mod thr {
     }
 
     fn run_spec(log: &mut Log, st: &mut Stats, spec: Spec, sched: &mut Sched) {
-        let Spec { tag, n_actors, setup, progs, kill, exit } = spec;
-        let exiter = 0u64;
+        let Spec { tag, n_actors, setup, progs, kill, exit, exit2 } = spec;
         let seed = tag.clone();
 
         let evlog: EvLog = Arc::new(Mutex::new(Vec::new()));
+        // the second exiter's thread first: its actor's cell is part of everybody's universe
+        let ctl_a2 = ThreadCtl::new();
+        let (tx_go2, rx_go2) = mpsc::channel::<bool>();
+        let (tx_finish2, rx_finish2) = mpsc::channel::<()>();
+        let mut ha2 = None;
+        let mut extra: Option<ActorCell> = None;
+        if exit2.is_some() {
+            let (tx_cell, rx_cell) = mpsc::channel();
+            let (ev3, ctl3) = (evlog.clone(), ctl_a2.clone());
+            ha2 = Some(std::thread::spawn(move || owner2_body(ev3, ctl3, tx_cell, rx_go2, rx_finish2)));
+            match rx_cell.recv_timeout(Duration::from_secs(20)) {
+                Ok(c) => extra = Some(c),
+                Err(_) => {
+                    log.rec(format!("thrcase {seed}"), "setup-failed");
+                    return;
+                }
+            }
+        }
+        let two = extra.is_some();
         let ctl_a = ThreadCtl::new();
         let (tx, rx) = mpsc::channel();
         let (tx_racer_done, rx_racer_done) = mpsc::channel();
         let (tx_done, rx_done) = mpsc::channel();
         let (tx_finish, rx_finish) = mpsc::channel();
-        let (ev2, ctl2, setup2) = (evlog.clone(), ctl_a.clone(), setup.clone());
-        let ha = std::thread::spawn(move || owner_body(n_actors, setup2, exiter, kill, exit, ev2, ctl2, tx, rx_racer_done, tx_done, rx_finish));
+        let (ev2, ctl2, setup2, extra2) = (evlog.clone(), ctl_a.clone(), setup.clone(), extra.clone());
+        let ha = std::thread::spawn(move || owner_body(n_actors, setup2, 0, kill, exit, ev2, extra2, ctl2, tx, rx_racer_done, tx_done, rx_finish));
         let cells = match rx.recv_timeout(Duration::from_secs(20)) {
             Ok(c) => c,
             Err(_) => {
                 log.rec(format!("thrcase {seed}"), "setup-failed");
+                let _ = tx_finish2.send(());
                 return;
             }
         };
@@ -950,7 +1052,10 @@ mod thr {
         // the setup is ordinary API-level history: log it as such
         log.rec(format!("thrcase {seed}"), format!("ev=- {} {}", "map=- idx=- world=- rel=- dead=-", "gm=- lm=- wg=- ws=- wsg=- wsag=-"));
         st.bump("thr_cases");
-        for k in 0..n_actors {
+        if two {
+            st.bump("thr_cases_two_exits");
+        }
+        for k in cells.keys() {
             log.rec(format!("t:actor {k} L"), "-");
         }
         for l in &setup {
@@ -958,10 +1063,20 @@ mod thr {
         }
         let _ = w.take_events();
         log.rec("tsync", w.observe());
+        if let Some(k2) = exit2 {
+            let _ = tx_go2.send(k2);
+        }
 
-        // racer threads (tid 1..)
+        // owner threads (tid 0, and tid 1 when there are two exits), then the racer threads
+        let n_own: usize = if two { 2 } else { 1 };
+        let ex_ids: Vec<u64> = if two { vec![0, n_actors] } else { vec![0] };
+        let xs: Vec<ActorCell> = ex_ids.iter().map(|k| cells[k].clone()).collect();
         let mut ctls = vec![ctl_a.clone()];
         let mut curs: Vec<Arc<Mutex<String>>> = vec![Arc::new(Mutex::new(String::new()))];
+        if two {
+            ctls.push(ctl_a2.clone());
+            curs.push(Arc::new(Mutex::new(String::new())));
+        }
         let mut hbs = Vec::new();
         for prog in &progs {
             let ctl_b = ThreadCtl::new();
@@ -1012,17 +1127,16 @@ mod thr {
             pg::verif_snapshot().map.iter().any(|(s, g, _, _)| scope_back(s) == key.0 && group_back(g) == key.1)
         };
 
-        let x = cells[&exiter].clone();
         let mut last: Option<usize> = None;
-        let mut a_done = false;
-        let mut waited_logged = false;
-        let mut x_ever_dead = false;
+        let mut a_done = vec![false; n_own];
+        let mut waited_logged = vec![false; n_own];
+        let mut x_ever_dead = vec![false; n_own];
         let mut steps = 0u64;
         loop {
             let mut parked: Vec<(usize, &'static str)> = Vec::new();
             let mut hung = false;
             for (tid, c) in ctls.iter().enumerate() {
-                if tid == 0 && a_done {
+                if tid < n_own && (a_done[tid] || (tid == 1 && exit2.is_none())) {
                     continue;
                 }
                 match c.wait_parked_timeout(Duration::from_secs(20)) {
@@ -1043,11 +1157,13 @@ mod thr {
             }
             // `Stopped` is published: a `wait()` on ANY thread may return from now on. Whatever the
             // racers are in the middle of, the exiter must be in no member or listener list already
-            if !waited_logged && x.get_status() == ActorStatus::Stopped {
-                waited_logged = true;
-                let (lk, lw) = listener_keys(&x);
-                let zombie = !member_keys(&x).is_empty() || !lk.is_empty() || !lw.is_empty();
-                log.rec(format!("t:waited {exiter}"), format!("zombie={}", zombie as u8));
+            for e in 0..n_own {
+                if !waited_logged[e] && xs[e].get_status() == ActorStatus::Stopped {
+                    waited_logged[e] = true;
+                    let (lk, lw) = listener_keys(&xs[e]);
+                    let zombie = !member_keys(&xs[e]).is_empty() || !lk.is_empty() || !lw.is_empty();
+                    log.rec(format!("t:waited {}", ex_ids[e]), format!("zombie={}", zombie as u8));
+                }
             }
             let pick = match sched {
                 Sched::Random { rng, sticky } => match last {
@@ -1070,17 +1186,21 @@ mod thr {
             let (tid, point) = parked[pick];
             last = Some(tid);
             // sticky: a status word that moves backwards does not make the actor alive again
-            x_ever_dead |= x.get_status() >= ActorStatus::Stopping;
-            let x_dead_before = x_ever_dead;
-            let members_before = member_keys(&x);
-            let listeners_before = listener_keys(&x);
+            for e in 0..n_own {
+                x_ever_dead[e] |= xs[e].get_status() >= ActorStatus::Stopping;
+            }
+            let x_dead_before = x_ever_dead.clone();
+            let had_rel_before: Vec<ActorId> = pg::verif_snapshot().relations.iter().map(|r| r.0).collect();
+            let members_before: Vec<Vec<(u64, u64)>> = xs.iter().map(member_keys).collect();
+            let listeners_before: Vec<(Vec<(u64, u64)>, Vec<u64>)> = xs.iter().map(listener_keys).collect();
+            let is_owner = tid < n_own;
             let line = curs[tid].lock().unwrap().clone();
             let lw: Vec<&str> = line.split_whitespace().collect();
             let kind = lw.first().copied().unwrap_or("");
             let line_key: Option<(u64, u64)> = if lw.len() >= 3 { Some((lw[1].parse().unwrap_or(0), lw[2].parse().unwrap_or(0))) } else { None };
             // observations of the change / notify regions are taken BEFORE the region runs: nobody
             // else moves meanwhile, so this is what the region itself reads under its locks
-            let pre_obs: Option<String> = if tid == 0 {
+            let pre_obs: Option<String> = if is_owner {
                 match point {
                     "pg.leave_all.key" | "pg.leave_all.notify" => Some("owner".into()),
                     _ => None,
@@ -1097,11 +1217,11 @@ mod thr {
                 }
             };
             // for the owner the key of a leave_all iteration is only known afterwards: keep what is needed
-            let owner_pre = if tid == 0 && pre_obs.is_some() { Some(pg::verif_snapshot()) } else { None };
+            let owner_pre = if is_owner && pre_obs.is_some() { Some(pg::verif_snapshot()) } else { None };
             ctls[tid].grant();
-            if tid == 0 && point == "h.waited" {
+            if is_owner && point == "h.waited" {
                 // the owner unregisters after this point and never parks again
-                a_done = true;
+                a_done[tid] = true;
             } else {
                 let _ = ctls[tid].wait_parked_timeout(Duration::from_secs(20));
             }
@@ -1109,31 +1229,33 @@ mod thr {
             // linearisation: an op takes effect in the region that holds its locks; the exit
             // sequence is reported region by region
             let mut obs: Option<String> = None;
-            let op: Option<String> = if tid == 0 {
+            let op: Option<String> = if is_owner {
+                let exiter = ex_ids[tid];
+                let x = &xs[tid];
                 let world_of = |snap: &pg::VerifSnapshot| -> String {
                     let mut wd: Vec<(u64, String)> = snap.world.iter().map(|(s, _, lis)| (scope_back(s), format!("{}:{}", scope_back(s), plus(&w.ks(lis, true))))).collect();
                     wd.sort();
                     semi(wd.into_iter().map(|x| x.1).collect())
                 };
                 match point {
-                    "status.publish" if !x_dead_before && x.get_status() >= ActorStatus::Stopping => {
-                        x_ever_dead = true;
+                    "status.publish" if !x_dead_before[tid] && x.get_status() >= ActorStatus::Stopping => {
+                        x_ever_dead[tid] = true;
                         Some(format!("dead {exiter}"))
                     }
                     "status.pg_demonitor" => Some(format!("demontake {exiter}")),
                     "pg.demonitor_all.key" => {
-                        let after = listener_keys(&x);
-                        listeners_before.0.iter().find(|k| !after.0.contains(k)).map(|(s, g)| format!("demonkey {exiter} {s} {g}"))
+                        let after = listener_keys(x);
+                        listeners_before[tid].0.iter().find(|k| !after.0.contains(k)).map(|(s, g)| format!("demonkey {exiter} {s} {g}"))
                     }
                     "pg.demonitor_all.wkey" => {
-                        let after = listener_keys(&x);
-                        listeners_before.1.iter().find(|k| !after.1.contains(k)).map(|s| format!("demonwkey {exiter} {s}"))
+                        let after = listener_keys(x);
+                        listeners_before[tid].1.iter().find(|k| !after.1.contains(k)).map(|s| format!("demonwkey {exiter} {s}"))
                     }
                     "status.pg_leave" => Some(format!("takemem {exiter}")),
                     "pg.leave_all.key" => {
                         // which forward entry did this iteration take the exiter out of?
-                        let after = member_keys(&x);
-                        let k = members_before.iter().find(|k| !after.contains(k)).cloned();
+                        let after = member_keys(x);
+                        let k = members_before[tid].iter().find(|k| !after.contains(k)).cloned();
                         if let (Some((s, g)), Some(pre)) = (k, &owner_pre) {
                             let gl: Vec<u64> = pre
                                 .map
@@ -1159,9 +1281,26 @@ mod thr {
                     ("pg.join.filtered", "join") => Some(line.clone()),
                     ("pg.join.notify", "join") => Some("joinnotify".to_string()),
                     ("pg.leave.notify", "leave") => Some("leavenotify".to_string()),
+                    // `get_or_create_actor_relations`: the (possibly empty) reverse-index entry exists from here on
+                    ("h.act", "monitor") => Some(line.replacen("monitor", "moncreate", 1)),
+                    ("h.act", "monitorscope") => Some(line.replacen("monitorscope", "moncreate", 1)),
                     ("pg.monitor.relations", "monitor") => Some(line.clone()),
                     ("pg.monitor_scope.relations", "monitorscope") => Some(line.clone()),
-                    ("h.act", "leave") | ("h.act", "demonitor") | ("h.act", "demonitorscope") => Some(line.clone()),
+                    ("h.act", "leave") => Some(line.clone()),
+                    // `demonitor*`: the fetch of the reverse-index `Arc` (did it find one?) and the entry region
+                    ("h.act", "demonitor") | ("h.act", "demonitorscope") => {
+                        let b: u64 = lw.get(2).and_then(|x| x.parse().ok()).unwrap_or(0);
+                        let had = match cells.get(&b) {
+                            Some(c) if c.get_status() < ActorStatus::Stopping => {
+                                let id = c.get_id();
+                                if had_rel_before.contains(&id) { "1" } else { "0" }
+                            }
+                            _ => "*",
+                        };
+                        obs = Some(format!("had={had}"));
+                        Some(line.replacen(kind, if kind == "demonitor" { "demfetch" } else { "demsfetch" }, 1))
+                    }
+                    ("pg.demonitor.fetched", "demonitor") | ("pg.demonitor_scope.fetched", "demonitorscope") => Some(line.clone()),
                     ("drain.status", "drain") => Some(line.clone()),
                     ("pg.monitor.recheck", "monitor") => Some(line.replacen("monitor", "monrecheck", 1)),
                     ("pg.monitor_scope.recheck", "monitorscope") => Some(line.replacen("monitorscope", "monscoperecheck", 1)),
@@ -1169,28 +1308,38 @@ mod thr {
                     _ => None,
                 }
             };
-            // a stopping actor must never be admitted again: no new membership / listener entry of the
+            // a stopping actor must never be admitted again: no new membership / listener entry of an
             // exiter may appear once it has been seen `≥ Stopping`
-            if x_dead_before {
-                let (mk_after, lk_after) = (member_keys(&x), listener_keys(&x));
-                let readded = mk_after.iter().any(|k| !members_before.contains(k))
-                    || lk_after.0.iter().any(|k| !listeners_before.0.contains(k))
-                    || lk_after.1.iter().any(|k| !listeners_before.1.contains(k));
-                if readded {
-                    st.bump("thr_readded");
-                    log.rec(format!("t:readded {exiter}"), "readded=1");
+            for e in 0..n_own {
+                if x_dead_before[e] {
+                    let (mk_after, lk_after) = (member_keys(&xs[e]), listener_keys(&xs[e]));
+                    let readded = mk_after.iter().any(|k| !members_before[e].contains(k))
+                        || lk_after.0.iter().any(|k| !listeners_before[e].0.contains(k))
+                        || lk_after.1.iter().any(|k| !listeners_before[e].1.contains(k));
+                    if readded {
+                        st.bump("thr_readded");
+                        log.rec(format!("t:readded {}", ex_ids[e]), "readded=1");
+                    }
                 }
             }
             match op {
                 Some(o) => {
                     st.bump(&format!("thr_{}", o.split_whitespace().next().unwrap_or("")));
-                    if x_dead_before && tid >= 1 && o.contains(" 0") {
+                    if x_dead_before[0] && !is_owner && o.contains(" 0") {
                         st.bump("thr_op_on_exiting_actor");
+                    }
+                    if two && x_dead_before[0] && x_dead_before[1] && is_owner && !(waited_logged[0] && waited_logged[1]) {
+                        st.bump("thr_region_while_both_exits_in_flight");
                     }
                     log.rec(format!("t:@{tid} {o}"), obs.unwrap_or("-".into()));
                 }
                 None => log.rec(format!("t:skip {point}"), "-"),
             }
+            // the window: every thread is parked outside the locks, so the four indexes and the six
+            // queries can be read consistently in the MIDDLE of the race (C11.conc_cross_index_windows,
+            // conc_queries_are_projections)
+            st.bump("thr_windows");
+            log.rec("t:win", format!("ev=- {} {}", w.snapshot_f(true), w.queries()));
         }
         for hb in hbs {
             let _ = hb.join();
@@ -1198,10 +1347,14 @@ mod thr {
         let _ = tx_racer_done.send(());
         let _ = rx_done.recv_timeout(Duration::from_secs(20));
         st.add("thr_steps", steps);
-        // judged now: the exiter's wait() has returned, both threads are done, mailboxes drained
+        // judged now: the exiters' wait() have returned, all threads are done, mailboxes drained
         w.cells = cells;
         log.rec("tend", w.observe_alive());
         let _ = tx_finish.send(());
+        let _ = tx_finish2.send(());
         let _ = ha.join();
+        if let Some(h2) = ha2 {
+            let _ = h2.join();
+        }
     }
 }
